@@ -39,6 +39,7 @@ type Interp struct {
 	frozenOf map[*Cell]Term
 	dbCells  map[string]*Cell
 	pureAxDone map[string]bool
+	structNamed map[*types.Struct]types.Type
 	globalInitDone map[string]bool
 	// configuration
 	maxPaths int
@@ -627,6 +628,16 @@ func (in *Interp) freeze(v Val, t types.Type, st *State, f *Frame) Term {
 		in.assumeGlobal(Forall([]Term{j}, Eq(Select(sh, j), Select(content, Add(x.Off, j))), []Term{Select(sh, j)}))
 		return App("mk_"+s, s, sh, x.Len)
 	case StructV:
+		if _, isIface := t.Underlying().(*types.Interface); isIface && !isErrorType(t) {
+			// a struct value where an interface is expected: box it under its named type
+			if named := in.structNamed[x.Typ]; named != nil {
+				inner := in.freeze(x, named, st, f)
+				in.D.declareSort("Iface")
+				fn := "box_" + sanitize(inner.Sort)
+				in.D.declareFun(fn, []string{inner.Sort}, "Iface")
+				return App(fn, "Iface", inner)
+			}
+		}
 		s := in.sortOf(t)
 		var args []Term
 		for i := 0; i < x.Typ.NumFields(); i++ {
@@ -705,6 +716,12 @@ func (in *Interp) thaw(tm Term, t types.Type, f *Frame) Val {
 		return SliceV{Reg: reg, Off: IntLit(0), Len: ln, Cap: ln, Nil: TFalse}
 	case *types.Struct:
 		s := in.sortOf(t)
+		if _, isNamed := t.(*types.Named); isNamed {
+			if in.structNamed == nil {
+				in.structNamed = map[*types.Struct]types.Type{}
+			}
+			in.structNamed[u] = t
+		}
 		sv := StructV{Typ: u, F: make([]Val, u.NumFields())}
 		for i := 0; i < u.NumFields(); i++ {
 			fl := u.Field(i)
